@@ -56,7 +56,7 @@ def cMark (P : Proc) (n : Nat) (e r : Option Err) : Option (Option Err) :=
 /-- barriers.Handled / HandledWithMessage(f): `rs` is the redactable message. -/
 def cHandled (n : Nat) (rs : RStr) : Option Err → Option Err
   | none => none
-  | some e => some (.barrier (lid n 0) rs e)
+  | some e => some (.barrier (lid n 0) ⟨rs, none⟩ e)
 
 /-- attach `secondary.WithSecondaryError(err, e)` for each error argument, in order -/
 def addSecondaries (n : Nat) (j : Nat) (e : Err) : List Err → Err
